@@ -29,6 +29,13 @@ type RunToCompletion struct{}
 func (*RunToCompletion) Choose(s *Sim, en []*G, def *G) int { return indexOf(en, def) }
 func (*RunToCompletion) Name() string                       { return "rtc" }
 
+// Newest always runs the most recently created enabled goroutine: background
+// work completes as soon as it is started (the other benign schedule).
+type Newest struct{}
+
+func (*Newest) Choose(s *Sim, en []*G, def *G) int { return len(en) - 1 }
+func (*Newest) Name() string                       { return "newest" }
+
 // RandomWalk switches to a uniformly random enabled goroutine with
 // probability P at every step.
 type RandomWalk struct {
